@@ -45,7 +45,7 @@ VARIABLES now,     \* clock
           pend     \* id -> the new meta of the requeue in transit
 vars == <<now, st, loc, meta, holder, origin, deliv, ret, cons, norder, transit, pend>>
 
-Meta0 == [q |-> 0, topic |-> 0, prio |-> 0, due |-> NoTime, exp |-> NoTime, dl |-> NoTime, ver |-> 0]
+Meta0 == [q |-> 0, topic |-> 0, prio |-> 0, due |-> NoTime, exp |-> NoTime, dl |-> NoTime, ver |-> 0, dues |-> NoTime]
 
 Live(i) == st[i] = "live"
 Overdue(i) == meta[i].exp # NoTime /\ now > meta[i].exp
@@ -114,7 +114,6 @@ TakeGuard(c, i, chk) ==
     /\ cons[c].on /\ Live(i) /\ Matches(c, i) /\ holder[i] = NoC
     /\ CASE cons[c].cat = "n" -> /\ (loc[i] = U("n") \/ loc[i] = U("d"))
                                  /\ ("early" \in chk /\ loc[i] = U("d")) => (meta[i].due # NoTime /\ meta[i].due <= now)
-                                 /\ "ttl" \in chk => ~Overdue(i)
                                  /\ "fifo" \in chk => FifoOk(c, i)
          [] cons[c].cat = "d" -> loc[i] = U("d")
          [] cons[c].cat = "x" -> loc[i] = U("x")
@@ -130,8 +129,18 @@ Take(c, i, chk) ==
 (* consume() of consumer c returns message i to the client: only the holder, only once per take. *)
 Deliver(c, i, chk) ==
     /\ "holder" \in chk => (Held(c, i) /\ ~deliv[i])
+    /\ ("ttl" \in chk /\ cons[c].cat = "n") => ~Overdue(i)       \* C12: never handed over once expired
     /\ deliv' = [deliv EXCEPT ![i] = TRUE]
     /\ UNCHANGED <<now, st, loc, meta, holder, origin, ret, cons, norder, transit, pend>>
+
+(* a consumer that took (prefetched) a message, finds it expired and dead-letters it itself instead *)
+(* of handing it to the client (the two-step form of Expire used by brokers with server-side state) *)
+ExpireHeld(c, i, chk) ==
+    /\ Held(c, i) /\ ~deliv[i] /\ cons[c].cat = "n"
+    /\ "ttl" \in chk => Overdue(i)
+    /\ loc' = [loc EXCEPT ![i] = U("x")]
+    /\ holder' = [holder EXCEPT ![i] = NoC]
+    /\ UNCHANGED <<now, st, meta, origin, deliv, ret, cons, norder, transit, pend>>
 
 Ack(c, i) ==
     /\ Held(c, i)
@@ -197,7 +206,7 @@ RequeueInsert(i, k) ==
 
 -----------------------------------------------------------------------------
 (* Model-checking instance: small sets of metas *)
-MetaSet == [q : {1}, topic : Topics, prio : {1}, due : Dues, exp : Exps, dl : {NoTime}, ver : {1}]
+MetaSet == [q : {1}, topic : Topics, prio : {1}, due : Dues, exp : Exps, dl : {NoTime}, ver : {1}, dues : {NoTime}]
 ReMetaSet(i) == {[meta[i] EXCEPT !.due = d, !.exp = e, !.ver = 2] : d \in Dues, e \in Exps}
 
 Init == /\ now = 1
@@ -213,7 +222,7 @@ Next == \/ \E t \in (now + 1)..MaxTime : Tick(t)
         \/ \E i \in Ids : Expire(i, AllChk)
         \/ \E c \in Consumers : (~cons[c].on /\ Start(c)) \/ (cons[c].on /\ Stop(c))
         \/ \E c \in Consumers, i \in Ids :
-              \/ Take(c, i, AllChk) \/ Deliver(c, i, AllChk)
+              \/ Take(c, i, AllChk) \/ Deliver(c, i, AllChk) \/ ExpireHeld(c, i, AllChk)
               \/ (deliv[i] /\ ~transit[i] /\ (Ack(c, i) \/ Nack(c, i)))
               \/ \E k \in Cats : (deliv[i] /\ ~transit[i] /\ Reject(c, i, k)) \/ (~transit[i] /\ ~cons[c].on /\ ReturnHeld(c, i, k))
               \/ \E m \in ReMetaSet(i), k \in {"n", "d"} : deliv[i] /\ ~transit[i] /\ Requeue(c, i, m, k)
@@ -238,7 +247,7 @@ NorderSound == /\ \A k \in 1..Len(norder) : loc[norder[k]] = U("n") /\ meta[nord
 (* C05: never handed to a normal consumer before its due time; C12: never when expired *)
 TakenNow(c, i) == holder[i] # c /\ holder'[i] = c
 NeverEarly == [][\A c \in Consumers, i \in Ids : (TakenNow(c, i) /\ cons[c].cat = "n") => DueOk(i)]_vars
-NoExpiredDelivery == [][\A c \in Consumers, i \in Ids : (TakenNow(c, i) /\ cons[c].cat = "n") => ~Overdue(i)]_vars
+NoExpiredDelivery == [][\A i \in Ids : (~deliv[i] /\ deliv'[i] /\ holder[i] # NoC /\ cons[holder[i]].cat = "n") => ~Overdue(i)]_vars
 NotDroppedWhileLive == [][\A i \in Ids : (loc[i].x = 0 /\ loc'[i].x = 1 /\ holder[i] = NoC) => Overdue(i)]_vars
 OnlyViaDelayed == [][\A c \in Consumers, i \in Ids :
                        (TakenNow(c, i) /\ loc[i] = U("d") /\ ~DueOk(i)) => cons[c].cat = "d"]_vars
